@@ -4,6 +4,37 @@ mod util;
 mod ws;
 use util::*;
 
+use std::sync::Mutex;
+use std::sync::atomic::{AtomicU64, Ordering};
+/// the case executed so far and a progress counter, for the hang watchdog
+pub static CURRENT: Mutex<Vec<u64>> = Mutex::new(Vec::new());
+pub static PROGRESS: AtomicU64 = AtomicU64::new(0);
+
+/// A wedged endpoint (e.g. a self-deadlock inside the connection task) must not wedge the
+/// check: report the labels executed so far with the HANG marker and stop.
+fn start_watchdog() {
+    std::thread::spawn(|| {
+        let mut last = PROGRESS.load(Ordering::SeqCst);
+        let mut idle = 0;
+        loop {
+            std::thread::sleep(std::time::Duration::from_millis(500));
+            let now = PROGRESS.load(Ordering::SeqCst);
+            if now == last {
+                idle += 1;
+            } else {
+                idle = 0;
+                last = now;
+            }
+            if idle >= 16 {
+                let case = CURRENT.lock().map(|c| c.clone()).unwrap_or_default();
+                let line: Vec<String> = case.iter().map(|x| x.to_string()).collect();
+                println!("{}|2000004", line.join(" "));
+                std::process::exit(0);
+            }
+        }
+    });
+}
+
 /// case = 30 1 cfgA cfgB labels..; cfg = rwnd threshold accept_q dgram_q bind_q retries lp(rng);
 /// label = len op args..
 pub fn run_pair_case(c: &[u64]) -> Vec<u64> {
@@ -29,11 +60,14 @@ pub fn run_pair_case(c: &[u64]) -> Vec<u64> {
         i += 7 + n;
     }
     let mut w = pair::World::new(&cfgs[0], &cfgs[1]);
+    *CURRENT.lock().unwrap() = [&[30u64, 1][..], &c[..i]].concat();
     while i < c.len() {
         let n = c[i] as usize;
         if n == 0 || i + 1 + n > c.len() {
             return vec![pair::MALFORMED];
         }
+        CURRENT.lock().unwrap().extend(&c[i..i + 1 + n]);
+        PROGRESS.fetch_add(1, Ordering::SeqCst);
         if !w.label(&c[i + 1..i + 1 + n]) {
             return vec![pair::MALFORMED];
         }
@@ -47,6 +81,7 @@ fn main() {
     let which = args.first().cloned().unwrap_or_default();
     let a = parse_args(&args[1.min(args.len())..]);
     quiet_panics();
+    start_watchdog();
     let mut out = Out::new();
     if let Some(path) = &a.replay {
         for c in read_cases(path) {
